@@ -5,6 +5,10 @@ from .facts import op_local, Slice, place_fields, op_const
 from .lib import bool_switches, enum_switches, must_pass, result_local
 from .cachebooks import (map_ops, counter_ops, option_edges, recv_fields, on_field, RECV_TRANSPARENT, ATOMIC_OPS)
 from .locks import held_analysis, LockSummaries, classify, lock_id, SYNC_FAMILIES
+
+# RwLocks that queue new readers behind a waiting writer (parking_lot: "readers trying to acquire the lock will block even if the lock is unlocked
+# when there are writers waiting"; tokio: write-preferring FIFO). read_recursive is not used in the workspace (checked by grep on the pinned tree).
+FAIR_FAMILIES = ("parking_lot", "tokio")
 from . import c12, c06
 
 CRATES = ["cascette_cache", "cascette_client_storage", "cascette_protocol", "cascette_crypto", "cascette_formats"]
@@ -209,6 +213,14 @@ def r4_lock_discipline(ctx):
                     if lock[1] == "?":
                         continue
                     if lock == h.lock:
+                        if mode != "excl" and h.mode != "excl" and (fam in FAIR_FAMILIES or h.family in FAIR_FAMILIES):
+                            # parking_lot / tokio RwLocks queue readers behind a waiting writer: a second read() of a lock this task already
+                            # read-holds blocks for ever as soon as a writer arrived in between (documented by both crates)
+                            ctx.bad(rule, [b.id, "reentrant-read", "%s.%s" % (lock[0].split("::")[-1], lock[1]), c12.short(c.name)],
+                                    "%s holds a read guard of %s.%s (taken at %s) while calling %s which read-locks it again (at %s): with a writer "
+                                    "waiting in between (fair RwLock: %s) the second read blocks behind the writer, the writer behind the first read - deadlock" %
+                                    (b.id, lock[0].split("::")[-1], lock[1], h.site, c.name, site, fam), c.loc())
+                            continue
                         if mode == "excl" or h.mode == "excl":
                             ctx.bad(rule, [b.id, "reentrant", "%s.%s" % (lock[0].split("::")[-1], lock[1]), c12.short(c.name)],
                                     "%s holds %s.%s (%s, taken at %s) while calling %s which acquires it again (%s at %s): self-deadlock" %
@@ -411,7 +423,56 @@ def r9_decrement_follows_removal(ctx):
     ctx.floor(rule, n, 8, "counter decrements in memory_cache.rs / disk_cache.rs")
 
 
+MAP_REMOVE = re.compile(r"\bdashmap::DashMap::<K, V, S>::(remove|remove_if)$")
+MAP_INSERT = re.compile(r"\bdashmap::DashMap::<K, V, S>::insert$")
+
+
+def nonatomic_replacements(b):
+    """(remove, insert) pairs on the same concurrent map with a key from the same source, the insert reachable from the remove"""
+    out = []
+    live = b.live_blocks()
+    rms = [c for c in b.calls if MAP_REMOVE.search(c.name) and c.bb in live and len(c.args) >= 2]
+    ins = [c for c in b.calls if MAP_INSERT.search(c.name) and c.bb in live and len(c.args) >= 2]
+    for r in rms:
+        rk = Slice(b, [op_local(r.args[1])], transparent=True) if op_local(r.args[1]) is not None else None
+        for i in ins:
+            if i.bb not in b.reachable_after(r.bb) or lock_id(b, r) != lock_id(b, i) or rk is None or op_local(i.args[1]) is None:
+                continue
+            ik = Slice(b, [op_local(i.args[1])], transparent=True)
+            same = (rk.args & ik.args) or ({f for f in rk.fields if f and str(f[-1]).startswith("upvar:")} & {f for f in ik.fields if f and str(f[-1]).startswith("upvar:")})
+            if same:
+                out.append((r, i))
+    return out
+
+
+def r10_overwrite_is_one_operation(ctx):
+    """DashMap::insert replaces a value atomically (and returns the old one for the books). remove(key) followed by insert(key, ..) opens a window in
+    which a key that was put and never removed is absent: a concurrent get / contains misses, a concurrent remove reports false, and two such
+    overwrites interleave into a double-counted entry"""
+    rule = "C11.R10"
+    ctx.rule(rule, "no function of the cache / storage crates removes a key from a concurrent map and then inserts the same key into the same map "
+                   "(an overwrite is the single insert)")
+    n = 0
+    m = 0
+    for b in sorted(ctx.prog.bodies.values(), key=lambda x: x.id):
+        if b.krate not in LOCK_KRATES:
+            continue
+        if any(MAP_INSERT.search(c.name) for c in b.calls):
+            n += 1
+        for (r, i) in nonatomic_replacements(b):
+            m += 1
+            ctx.saw(b)
+            ctx.bad(rule, [b.id, "remove-then-insert", "%s.%s" % (lock_id(b, r)[0].split("::")[-1], lock_id(b, r)[1])],
+                    "%s overwrites a key of %s.%s by remove() at %s followed by insert() at %s: between the two the key is absent although no operation "
+                    "removed it (a concurrent get misses, the books of two racing overwrites double-count)"
+                    % (ctx._stable(b.id), lock_id(b, r)[0].split("::")[-1], lock_id(b, r)[1], r.loc(), i.loc()), i.loc())
+    ctx.floor(rule, n, 3, "functions inserting into a concurrent map")
+    if not m:
+        ctx.ok(rule, ["all"], "%d inserting function(s), none preceded by a removal of the same key" % n, None, sample={"inserting_functions": n})
+
+
 def run(ctx):
+    r10_overwrite_is_one_operation(ctx)
     r9_decrement_follows_removal(ctx)
     r8_size_from_handle(ctx)
     r7_stale_write_back(ctx)
